@@ -18,6 +18,9 @@ INVARIANT C14_ValidityContainsNow
 INVARIANT C14_StorePublished
 INVARIANT C01_ManifestExact
 INVARIANT C0109_ServedIsContent
+INVARIANT C04_TopSettled
+INVARIANT C01_TopValid
+INVARIANT TaExactlyOnce
 INVARIANT RpMatches
 INVARIANT SettledAgreed
 INVARIANT T_C01_Clean
